@@ -28,6 +28,7 @@ package runtime
 //@ func semaAcquire
 //@ props C11
 //@ lock semaState.mu protects self.waiters
+//@ lock semaState.mu wait_invariant C11 sleeps-only-after-seeing-zero-under-the-lock: ghost(obs_zero) == 1
 //@ requires addr != nil
 //@ loop 1 invariant none-taken: ghost(cas_dec) == 0 && ghost(cas_other) == 0 && ghost(add_one) == 0 && ghost(add_other) == 0 && ghost(stores) == 0
 //@ loop 2 invariant none-taken: ghost(cas_dec) == 0 && ghost(cas_other) == 0 && ghost(add_one) == 0 && ghost(add_other) == 0 && ghost(stores) == 0
